@@ -40,6 +40,7 @@ type SD struct {
 	Pos        int  // next undelivered offset (strong), or tracked offset (weak)
 	PosKnown   bool // weak mode: position located in S
 	fedEv      []int32
+	fedAtMin   []int64 // earliest capture time (event clock) at which this offset arrived, valid where fedEv != 0
 	FedHigh    int
 	openFed    bool
 	Delivered  int
@@ -160,7 +161,7 @@ func (h *Harness) NewStream(net, tcp gopacket.Flow) *Stream {
 func (h *Harness) sdOf(s *Stream, d *Dir) *SD {
 	x := s.sd[d.Idx]
 	if x == nil {
-		x = &SD{Dir: d, fedEv: make([]int32, len(d.S)), skippedAt: make([]bool, len(d.S))}
+		x = &SD{Dir: d, fedEv: make([]int32, len(d.S)), fedAtMin: make([]int64, len(d.S)), skippedAt: make([]bool, len(d.S))}
 		s.sd[d.Idx] = x
 	}
 	return x
@@ -252,6 +253,12 @@ func (h *Harness) Deliver(s *Stream, d *Dir, skip int, b []byte, start, end bool
 					c.Fail("gaps", "arrived-bytes-skipped", "delivery", "dir %d: skip of %d at pos %d passes over offset %d which had arrived earlier", d.Idx, skip, x.Pos, o)
 				}
 				x.skippedAt[o] = true
+			}
+			// age-based release, judged by what the harness itself knows: the
+			// byte the flush skipped ahead to was never captured before the
+			// cut-off (whatever capture time the assembler reports for it)
+			if o := x.Pos + skip; (h.Kind == CallFlushT || h.Kind == CallFlushClose) && !h.CutOff.IsZero() && len(b) > 0 && o < len(S) && x.fedEv[o] != 0 && !T(x.fedAtMin[o]).Before(h.CutOff) {
+				c.Fail("age-flush", "released-newer-data", "flush", "flush with cut-off %v skipped ahead to offset %d of dir %d, which was first captured at %v", h.CutOff.Sub(Base), o, d.Idx, T(x.fedAtMin[o]).Sub(Base))
 			}
 			x.Pos += skip
 			x.Skipped += skip
